@@ -461,8 +461,11 @@ pub fn set_bit_buffer(buffer: &mut Vec<u8>, idx: usize, value: bool) {
 }
 
 pub fn get_bit_buffer(data: &[u8], offset: usize, idx: usize) -> Result<bool> {
-    let flag = 1 << ((idx + offset) % 8);
-    let Some(byte) = data.get((idx + offset) / 8) else {
+    let Some(pos) = idx.checked_add(offset) else {
+        fail!("Invalid access in bitset");
+    };
+    let flag = 1 << (pos % 8);
+    let Some(byte) = data.get(pos / 8) else {
         fail!("Invalid access in bitset");
     };
     Ok(byte & flag == flag)
